@@ -51,7 +51,7 @@ EXIT_MAP = [0, 1, 6, 3, 16, 17, 4, 11, 18]  # 18: exception whose extractor fail
 def BOUNDS(tier):
     if tier == "quick":
         return {"plans": [[1, 3], [2, 2], [3, 1]], "raises": 1, "kinds": 2}
-    return {"plans": [[1, 4], [2, 2], [3, 1]], "raises": 2, "kinds": 4}
+    return {"plans": [[1, 3], [2, 2], [3, 1]], "raises": 2, "kinds": 3}
 
 
 def units(tier):
